@@ -36,13 +36,18 @@ var c09Confs = []struct {
 	{"skip-signature", world.SPConf{Store: []string{"K1"}, SkipSig: true}},
 	{"bare(empty store,no keys,nil clock)", world.SPConf{Store: []string{}, EncField: "-", NilClock: true}},
 	{"custom key store without a certificate, encryption certificate validated", world.SPConf{Store: []string{"K1"}, PlainStores: true, EncCertState: "nocert", ValidateEncCert: true}},
+	{"custom key store whose GetKeyPair fails", world.SPConf{Store: []string{"K1"}, PlainStores: true, EncCertState: "keystore-error"}},
 }
 
 var c09Entries = []string{"ValidateEncodedResponse", "RetrieveAssertionInfo", "DecodeUnverifiedBaseResponse", "DecodeUnverifiedLogoutResponse", "ValidateEncodedLogoutRequestPOST", "ValidateEncodedLogoutResponsePOST"}
 
 // c09Call runs one entry point and reports a violation class ("" = total).
 func c09Call(entry int, conf int, in string) (viol string, detail string) {
-	sp := c09Confs[conf].Conf.Build()
+	return c09CallOn(c09Confs[conf].Conf.Build(), entry, in)
+}
+
+// c09CallOn runs one entry point on the given (possibly already used) instance.
+func c09CallOn(sp *saml2.SAMLServiceProvider, entry int, in string) (viol string, detail string) {
 	var resNil, errNil bool
 	p := guard(func() {
 		switch entry {
@@ -594,6 +599,8 @@ func c09Replay(raw json.RawMessage) ([]string, string) {
 			return nil, d
 		}
 		return []string{fmt.Sprintf("C09/%s/cert=%s/%s", c.Direct.Routine, c.Direct.Cert, v)}, d
+	case strings.HasPrefix(c.Family, "repeated-delivery/"):
+		return c09Repeated(c)
 	case strings.HasPrefix(c.Family, "structure/"):
 		// replayed in-process (may kill the replay process for fatal errors: that is the finding)
 		var kind string
@@ -618,13 +625,31 @@ func c09Replay(raw json.RawMessage) ([]string, string) {
 	}
 }
 
+// c09Repeated delivers the input three times to ONE instance (through both SSO entry points):
+// a configuration whose key store fails, or a message that fails half-way, must leave the
+// instance able to answer the next delivery with a result or an error.
+func c09Repeated(c c09Case) ([]string, string) {
+	sp := c09Confs[c.Conf].Conf.Build()
+	var keys []string
+	detail := ""
+	for round := 0; round < 3; round++ {
+		for _, e := range []int{0, 1} {
+			if v, d := c09CallOn(sp, e, c.Input); v != "" {
+				keys = append(keys, fmt.Sprintf("C09/%s/repeated-delivery/%s", c09Entries[e], v))
+				detail += fmt.Sprintf(" | delivery %d through %s: %s", round+1, c09Entries[e], d)
+			}
+		}
+	}
+	return dedupe(keys), fmt.Sprintf("conf=%s%s", c09Confs[c.Conf].Name, detail)
+}
+
 func c09Run(r *mc.Run) {
 	bits := []uint{0, 7}
 	if r.Thorough() {
 		bits = []uint{0, 1, 2, 3, 4, 5, 6, 7}
 	}
 	r.Level = "fault_enumeration"
-	r.Rule = "(a) 6 base messages x 3 layers (base64 text, DEFLATE stream, XML bytes): every truncation offset, every single-bit flip (quick: bits 0 and 7 of every byte; thorough: all 8), 12 byte substitutions at every position, each fed to the entry points of its kind under 3 configurations (truncations: to all 6 entry points); (b) unsigned Response + EncryptedAssertion: 8 algorithm identifiers x every ciphertext length 0..64 x content families (zeros, 0xff, valid-truncated, every final plaintext byte 0..255, every position x value of the last non-zero byte of the final block, all-zero final block) with deviation-bounded key-transport / digest / key length / placement / recipient variants, through ValidateEncodedResponse and through DecryptBytes/Decrypt directly; every document one attacker edit (C01's operator menu) away from 8 genuine messages; a valid EncryptedAssertion at 11 placements (direct child, twice, 4 wrappers, nested elements named like the root, inside an assertion, inside another EncryptedAssertion) under signed and unsigned roots; direct DecryptSymmetricKey/DecryptBytes calls with odd certificates; (c) structure extremes in a child process. non-trivial = the input passed base64 decoding (reached XML/DEFLATE processing) or reached the decryption routine; distinct = distinct input"
+	r.Rule = "(a) 6 base messages x 3 layers (base64 text, DEFLATE stream, XML bytes): every truncation offset, every single-bit flip (quick: bits 0 and 7 of every byte; thorough: all 8), 12 byte substitutions at every position, each fed to the entry points of its kind under 5 configurations (truncations: to all 6 entry points); (b) unsigned Response + EncryptedAssertion: 8 algorithm identifiers x every ciphertext length 0..64 x content families (zeros, 0xff, valid-truncated, every final plaintext byte 0..255, every position x value of the last non-zero byte of the final block, all-zero final block) with deviation-bounded key-transport / digest / key length / placement / recipient variants, through ValidateEncodedResponse and through DecryptBytes/Decrypt directly; every document one attacker edit (C01's operator menu) away from 8 genuine messages; a valid EncryptedAssertion at 11 placements (direct child, twice, 4 wrappers, nested elements named like the root, inside an assertion, inside another EncryptedAssertion) under signed and unsigned roots, each also delivered three times to one instance of every configuration (incl. a key store whose GetKeyPair fails); direct DecryptSymmetricKey/DecryptBytes calls with odd certificates; (c) structure extremes in a child process. non-trivial = the input passed base64 decoding (reached XML/DEFLATE processing) or reached the decryption routine; distinct = distinct input"
 	r.Assume("a Go panic in the callee is observable by recover(); fatal runtime errors are observed as death of a child process")
 
 	// (a)
@@ -773,6 +798,21 @@ func c09Run(r *mc.Run) {
 			}
 		}
 		_ = pi
+		// the same message delivered three times to one instance of every configuration
+		for cf := range c09Confs {
+			c := c09Case{Family: "repeated-delivery/" + in.name, Conf: cf, Input: in.enc}
+			keys, d := c09Repeated(c)
+			r.Eval(6)
+			r.Nontrivial("repeated/" + in.name + fmt.Sprint(cf))
+			if len(keys) > 0 {
+				r.Bucket("repeated-delivery/VIOLATION")
+				for _, k := range keys {
+					r.Violation(k, d, c)
+				}
+			} else {
+				r.Bucket("repeated-delivery/total")
+			}
+		}
 	}
 
 	// (b'') every document one attacker edit away from a genuine message (the operator menu of
